@@ -20,6 +20,7 @@ Notation track_ok := (CompileBase.track_ok p).
 Notation caps_rel := (CompileBase.caps_rel p).
 
 Notation code_ex := (CompileDefs.code_ex p).
+Notation tbl_ok := (CompileDefs.tbl_ok p).
 Notation ok_node := (CompileDefs.ok_node e p).
 Notation ok_at := (CompileDefs.ok_at e p).
 
@@ -58,6 +59,7 @@ Variable tbl : list (list Z).
 Hypothesis Hr_ok : ok_node f r.
 Hypothesis Hsr : supported r = true.
 Hypothesis Hcb : has_code lbody (fst (emit cfg0 r lbody tbl)).
+Hypothesis Htb : tbl_ok (snd (emit cfg0 r lbody tbl)).
 Hypothesis Hlt : ltest = lbody + csize cfg0 r.
 Hypothesis Hext : code_ex ltest.
 
@@ -96,12 +98,13 @@ End Shape.
 (* ---------- greedy, uncounted: Branchmark ---------- *)
 Lemma cc_iter_bm f r lbody ltest tbl :
   ok_node f r -> supported r = true -> has_code lbody (fst (emit cfg0 r lbody tbl)) ->
+  tbl_ok (snd (emit cfg0 r lbody tbl)) ->
   ltest = lbody + csize cfg0 r ->
   code_at p ltest = Some Branchmark -> code_at p (ltest + 1) = Some lbody -> code_ex (ltest + 2) ->
   0 < ltest -> code_ex lbody ->
   forall fi, iter_ok_at f r false INF false ltest (ltest + 2) fi.
 Proof.
-  intros Hr_ok Hsr Hcb Hlt H0 H1 [w2 H2] Hpos [wb Hwb].
+  intros Hr_ok Hsr Hcb Htb Hlt H0 H1 [w2 H2] Hpos [wb Hwb].
   induction fi as [|fi IH]; intros s mark count res Hit Hst Hside T S C M Hk Hr; [discriminate Hit|].
   destruct (Hside eq_refl) as (Hc0 & Hcf & _).
   cbn [iter] in Hit. cbn [stk stkf app andb].
@@ -122,7 +125,7 @@ Proof.
   - apply sp_appr_ok in Hit. destruct Hit as (ra & y & Hra & Hy & ->). injection Hy as <-.
     eapply leadsg_pre. { eapply rs_branchmark_loop; try exact tc_nonneg; try eassumption. lia. }
     eapply leadsg_app with (T1 := [ltest; pos s; mark]) (Cx := []) (Sf1 := pos s :: S) (M1 := M); [|reflexivity|].
-    + apply (cc_again f r false INF false lbody ltest (ltest + 2) tbl Hr_ok Hsr Hcb Hlt (ex_intro _ _ H0) fi IH
+    + apply (cc_again f r false INF false lbody ltest (ltest + 2) tbl Hr_ok Hsr Hcb Htb Hlt (ex_intro _ _ H0) fi IH
                s (count + 1) ra Hra Hst).
       * intros _. repeat split; lia.
       * cbn [app]. eapply track_ok_cons. rewrite Z.abs_eq by lia. exact H0.
@@ -135,12 +138,13 @@ Qed.
 (* ---------- lazy, uncounted: Lazybranchmark ---------- *)
 Lemma cc_iter_lbm f r lbody ltest tbl :
   ok_node f r -> supported r = true -> has_code lbody (fst (emit cfg0 r lbody tbl)) ->
+  tbl_ok (snd (emit cfg0 r lbody tbl)) ->
   ltest = lbody + csize cfg0 r ->
   code_at p ltest = Some Lazybranchmark -> code_at p (ltest + 1) = Some lbody -> code_ex (ltest + 2) ->
   0 < ltest -> code_ex lbody ->
   forall fi, iter_ok_at f r true INF false ltest (ltest + 2) fi.
 Proof.
-  intros Hr_ok Hsr Hcb Hlt H0 H1 [w2 H2] Hpos [wb Hwb].
+  intros Hr_ok Hsr Hcb Htb Hlt H0 H1 [w2 H2] Hpos [wb Hwb].
   induction fi as [|fi IH]; intros s mark count res Hit Hst Hside T S C M Hk Hr; [discriminate Hit|].
   destruct (Hside eq_refl) as (Hc0 & Hcf & _).
   cbn [iter] in Hit. cbn [stk stkf app andb].
@@ -168,7 +172,7 @@ Proof.
     eapply leadsg_pre. { eapply rs_lazybranchmark_back; try exact tc_nonneg; eassumption. }
     rewrite <- (app_nil_r ra).
     eapply leadsg_app with (T1 := [- ltest; 1; mark']) (Cx := []) (Sf1 := pos s :: S) (M1 := M); [|reflexivity|].
-    + apply (cc_again f r true INF false lbody ltest (ltest + 2) tbl Hr_ok Hsr Hcb Hlt (ex_intro _ _ H0) fi IH
+    + apply (cc_again f r true INF false lbody ltest (ltest + 2) tbl Hr_ok Hsr Hcb Htb Hlt (ex_intro _ _ H0) fi IH
                s (count + 1) ra Hra Hst).
       * intros _. repeat split; lia.
       * cbn [app]. eapply track_ok_cons. rewrite Z.abs_opp, Z.abs_eq by lia. exact H0.
@@ -181,12 +185,13 @@ Qed.
 (* ---------- greedy, counted: Branchcount ---------- *)
 Lemma cc_iter_bc f r limit lbody ltest tbl :
   ok_node f r -> supported r = true -> has_code lbody (fst (emit cfg0 r lbody tbl)) ->
+  tbl_ok (snd (emit cfg0 r lbody tbl)) ->
   ltest = lbody + csize cfg0 r ->
   code_at p ltest = Some Branchcount -> code_at p (ltest + 1) = Some lbody -> code_at p (ltest + 2) = Some limit ->
   code_ex (ltest + 3) -> 0 < ltest -> code_ex lbody ->
   forall fi, iter_ok_at f r false limit true ltest (ltest + 3) fi.
 Proof.
-  intros Hr_ok Hsr Hcb Hlt H0 H1 H2 [w3 H3] Hpos [wb Hwb].
+  intros Hr_ok Hsr Hcb Htb Hlt H0 H1 H2 [w3 H3] Hpos [wb Hwb].
   induction fi as [|fi IH]; intros s mark count res Hit Hst Hside T S C M Hk Hr; [discriminate Hit|].
   cbn [iter] in Hit. cbn [stk stkf app].
   pose proof Hk as (np' & T3 & HT3 & w4 & Hw4).
@@ -205,7 +210,7 @@ Proof.
   - apply sp_appr_ok in Hit. destruct Hit as (ra & y & Hra & Hy & ->). injection Hy as <-.
     eapply leadsg_pre. { eapply rs_branchcount_loop; try exact tc_nonneg; eassumption. }
     eapply leadsg_app with (T1 := [ltest; mark]) (Cx := []) (Sf1 := count + 1 :: pos s :: S) (M1 := M); [|reflexivity|].
-    + apply (cc_again f r false limit true lbody ltest (ltest + 3) tbl Hr_ok Hsr Hcb Hlt (ex_intro _ _ H0) fi IH
+    + apply (cc_again f r false limit true lbody ltest (ltest + 3) tbl Hr_ok Hsr Hcb Htb Hlt (ex_intro _ _ H0) fi IH
                s (count + 1) ra Hra Hst).
       * intros Hx. discriminate Hx.
       * cbn [app]. eapply track_ok_cons. rewrite Z.abs_eq by lia. exact H0.
@@ -223,12 +228,13 @@ Qed.
 (* ---------- lazy, counted: Lazybranchcount ---------- *)
 Lemma cc_iter_lbc f r limit lbody ltest tbl :
   ok_node f r -> supported r = true -> has_code lbody (fst (emit cfg0 r lbody tbl)) ->
+  tbl_ok (snd (emit cfg0 r lbody tbl)) ->
   ltest = lbody + csize cfg0 r ->
   code_at p ltest = Some Lazybranchcount -> code_at p (ltest + 1) = Some lbody -> code_at p (ltest + 2) = Some limit ->
   code_ex (ltest + 3) -> 0 < ltest -> code_ex lbody ->
   forall fi, iter_ok_at f r true limit true ltest (ltest + 3) fi.
 Proof.
-  intros Hr_ok Hsr Hcb Hlt H0 H1 H2 [w3 H3] Hpos [wb Hwb].
+  intros Hr_ok Hsr Hcb Htb Hlt H0 H1 H2 [w3 H3] Hpos [wb Hwb].
   induction fi as [|fi IH]; intros s mark count res Hit Hst Hside T S C M Hk Hr; [discriminate Hit|].
   cbn [iter] in Hit. cbn [stk stkf app].
   pose proof Hk as (np' & T3 & HT3 & w4 & Hw4).
@@ -239,7 +245,7 @@ Proof.
            (mkr lbody 0 (pos s) (- ltest :: mark :: T) (count + 1 :: pos s :: S) C M) ra).
   { intros ra Hra. rewrite <- (app_nil_r ra).
     eapply leadsg_app with (T1 := [- ltest; mark]) (Cx := []) (Sf1 := count + 1 :: pos s :: S) (M1 := M); [|reflexivity|].
-    + apply (cc_again f r true limit true lbody ltest (ltest + 3) tbl Hr_ok Hsr Hcb Hlt (ex_intro _ _ H0) fi IH
+    + apply (cc_again f r true limit true lbody ltest (ltest + 3) tbl Hr_ok Hsr Hcb Htb Hlt (ex_intro _ _ H0) fi IH
                s (count + 1) ra Hra Hst).
       * intros Hx. discriminate Hx.
       * cbn [app]. eapply track_ok_cons. rewrite Z.abs_opp, Z.abs_eq by lia. exact H0.
@@ -267,6 +273,7 @@ Qed.
 (* ---------- assembling the loop: prelude, (Goto), body, test ---------- *)
 Lemma cc_loop_core f r lazy limit cntd m a lbody ltest exit tbl :
   ok_node f r -> supported r = true -> has_code lbody (fst (emit cfg0 r lbody tbl)) ->
+  tbl_ok (snd (emit cfg0 r lbody tbl)) ->
   ltest = lbody + csize cfg0 r -> code_ex ltest -> code_at p a <> None ->
   (forall fi, iter_ok_at f r lazy limit cntd ltest exit fi) ->
   side limit cntd (if m =? 0 then 0 else 1 - m) f ->
@@ -281,7 +288,7 @@ Lemma cc_loop_core f r lazy limit cntd m a lbody ltest exit tbl :
     forall T S C M, track_ok T -> caps_rel (caps s) M ->
       leadsg exit T S S C M (mkr a 0 (pos s) T S C M) res.
 Proof.
-  intros Hr_ok Hsr Hcb Hlt Hext Ha Hiter Hside Hpre0 Hpre1 Hback s res Hsem Hst T S C M Hk Hr.
+  intros Hr_ok Hsr Hcb Htb Hlt Hext Ha Hiter Hside Hpre0 Hpre1 Hback s res Hsem Hst T S C M Hk Hr.
   assert (Ha0 : 0 <= a).
   { destruct (code_at p a) as [w|] eqn:E; [|congruence]. eapply code_at_nonneg. exact E. }
   assert (Hka : track_ok (a :: T)).
@@ -296,7 +303,7 @@ Proof.
       eapply leadsg_fail; [exact HT3|]. rewrite HT3. eapply Hback. exact Hw3.
   - apply Z.eqb_neq in Em. eapply leadsg_pre; [apply Hpre1; exact Em|].
     eapply leadsg_app with (T1 := [a]) (Cx := []) (Sf1 := stk cntd (pos s) (1 - m) ++ S) (M1 := M); [|reflexivity|].
-    + apply (cc_again f r lazy limit cntd lbody ltest exit tbl Hr_ok Hsr Hcb Hlt Hext f (Hiter f)
+    + apply (cc_again f r lazy limit cntd lbody ltest exit tbl Hr_ok Hsr Hcb Htb Hlt Hext f (Hiter f)
                s (1 - m) res Hsem Hst Hside ([a] ++ T) S C M Hka Hr).
     + intros np T' t HT. cbn [app] in HT. injection HT as <- <-. rewrite bkr_pos by exact Ha0.
       eapply leadsg_fail; [exact HT3|]. rewrite HT3.
@@ -313,15 +320,15 @@ Proof. reflexivity. Qed.
 Lemma cc_loop f lazy o m n r : Z.of_nat f <= INF -> ok_node f r -> supported r = true -> 0 <= m -> n <= INF ->
   ok_node (S f) (NLoop lazy o m n r).
 Proof.
-  intros Hf Hr_ok Hsr Hm Hn s res Hsem Hst a tbl T S C M Hc Hex Hk Hr.
+  intros Hf Hr_ok Hsr Hm Hn s res Hsem Hst a tbl T S C M Hc Hex Hk Hr Htb.
   rewrite cc_sem_loop in Hsem.
   set (limit := if n =? INF then INF else n - m) in *.
-  cbn [emit csize] in Hc, Hex |- *. cbv zeta in Hc.
+  cbn [emit csize] in Hc, Hex, Htb |- *. cbv zeta in Hc, Htb.
   destruct (counted m n) eqn:Ec; destruct (m =? 0) eqn:Em.
   - (* Nullcount 0 ; Goto ltest ; body ; Branchcount *)
-    change (zlen [Nullcount; 0]) with 2 in Hc.
+    change (zlen [Nullcount; 0]) with 2 in Hc, Htb.
     pose proof (emit_length cfg0 r (a + 2 + 2) tbl) as Lr.
-    destruct (emit cfg0 r (a + 2 + 2) tbl) as [cr t1] eqn:Er. cbn [fst] in Lr, Hc. rewrite ?Lr in Hc.
+    destruct (emit cfg0 r (a + 2 + 2) tbl) as [cr t1] eqn:Er. cbn [fst snd] in Lr, Hc, Htb. rewrite ?Lr in Hc.
     cbn [app] in Hc.
     apply has_code_cons in Hc. destruct Hc as [H0 Hc]. apply has_code_cons in Hc. destruct Hc as [H1 Hc].
     apply has_code_cons in Hc. destruct Hc as [Hg0 Hc]. apply has_code_cons in Hc. destruct Hc as [Hg1 Hc].
@@ -340,11 +347,12 @@ Proof.
     assert (Hiter : forall fi, iter_ok_at f r lazy limit true ltest (ltest + 3) fi).
     { destruct lazy.
       - eapply cc_iter_lbc with (lbody := lbody) (tbl := tbl); try eassumption; try reflexivity;
-          try (rewrite Er; exact Hcr); try exact Ht0.
+          try (rewrite Er; exact Hcr); try (rewrite Er; exact Htb); try exact Ht0.
       - eapply cc_iter_bc with (lbody := lbody) (tbl := tbl); try eassumption; try reflexivity;
-          try (rewrite Er; exact Hcr); try exact Ht0. }
+          try (rewrite Er; exact Hcr); try (rewrite Er; exact Htb); try exact Ht0. }
     apply (cc_loop_core f r lazy limit true 0 a lbody ltest (ltest + 3) tbl Hr_ok Hsr); try assumption.
     + rewrite Er. exact Hcr.
+    + rewrite Er. exact Htb.
     + reflexivity.
     + eexists; exact Ht0.
     + congruence.
@@ -356,9 +364,9 @@ Proof.
     + intros t np T' mk ct tt S0 C0 M0 w3 Hw3. cbn [stkf app].
       eapply rs_count_back; try exact tc_nonneg; try eassumption. right. reflexivity.
   - (* Setcount (1-m) ; body ; Branchcount *)
-    change (zlen [Setcount; 1 - m]) with 2 in Hc.
+    change (zlen [Setcount; 1 - m]) with 2 in Hc, Htb.
     pose proof (emit_length cfg0 r (a + 2 + 0) tbl) as Lr.
-    destruct (emit cfg0 r (a + 2 + 0) tbl) as [cr t1] eqn:Er. cbn [fst] in Lr, Hc. rewrite ?Lr in Hc.
+    destruct (emit cfg0 r (a + 2 + 0) tbl) as [cr t1] eqn:Er. cbn [fst snd] in Lr, Hc, Htb. rewrite ?Lr in Hc.
     cbn [app] in Hc.
     apply has_code_cons in Hc. destruct Hc as [H0 Hc]. apply has_code_cons in Hc. destruct Hc as [H1 Hc].
     apply has_code_app in Hc. destruct Hc as [Hcr Hc]. rewrite Lr in Hc.
@@ -375,12 +383,13 @@ Proof.
     assert (Hiter : forall fi, iter_ok_at f r lazy limit true ltest (ltest + 3) fi).
     { destruct lazy.
       - eapply cc_iter_lbc with (lbody := lbody) (tbl := tbl); try eassumption; try reflexivity;
-          try (rewrite Er; exact Hcr); try exact Ht0.
+          try (rewrite Er; exact Hcr); try (rewrite Er; exact Htb); try exact Ht0.
       - eapply cc_iter_bc with (lbody := lbody) (tbl := tbl); try eassumption; try reflexivity;
-          try (rewrite Er; exact Hcr); try exact Ht0. }
+          try (rewrite Er; exact Hcr); try (rewrite Er; exact Htb); try exact Ht0. }
     replace (m =? 0) with false in Hsem by lia.
     apply (cc_loop_core f r lazy limit true m a lbody ltest (ltest + 3) tbl Hr_ok Hsr); try assumption.
     + rewrite Er. exact Hcr.
+    + rewrite Er. exact Htb.
     + reflexivity.
     + eexists; exact Ht0.
     + congruence.
@@ -392,9 +401,9 @@ Proof.
       eapply rs_count_back; try exact tc_nonneg; try eassumption. left. reflexivity.
     + replace (m =? 0) with false by lia. exact Hsem.
   - (* Nullmark ; Goto ltest ; body ; Branchmark *)
-    change (zlen [Nullmark]) with 1 in Hc.
+    change (zlen [Nullmark]) with 1 in Hc, Htb.
     pose proof (emit_length cfg0 r (a + 1 + 2) tbl) as Lr.
-    destruct (emit cfg0 r (a + 1 + 2) tbl) as [cr t1] eqn:Er. cbn [fst] in Lr, Hc. rewrite ?Lr in Hc.
+    destruct (emit cfg0 r (a + 1 + 2) tbl) as [cr t1] eqn:Er. cbn [fst snd] in Lr, Hc, Htb. rewrite ?Lr in Hc.
     cbn [app] in Hc.
     apply has_code_cons in Hc. destruct Hc as [H0 Hc].
     apply has_code_cons in Hc. destruct Hc as [Hg0 Hc]. apply has_code_cons in Hc. destruct Hc as [Hg1 Hc].
@@ -413,11 +422,12 @@ Proof.
     assert (Hiter : forall fi, iter_ok_at f r lazy INF false ltest (ltest + 2) fi).
     { destruct lazy.
       - eapply cc_iter_lbm with (lbody := lbody) (tbl := tbl); try eassumption; try reflexivity;
-          try (rewrite Er; exact Hcr); try exact Ht0.
+          try (rewrite Er; exact Hcr); try (rewrite Er; exact Htb); try exact Ht0.
       - eapply cc_iter_bm with (lbody := lbody) (tbl := tbl); try eassumption; try reflexivity;
-          try (rewrite Er; exact Hcr); try exact Ht0. }
+          try (rewrite Er; exact Hcr); try (rewrite Er; exact Htb); try exact Ht0. }
     apply (cc_loop_core f r lazy INF false 0 a lbody ltest (ltest + 2) tbl Hr_ok Hsr); try assumption.
     + rewrite Er. exact Hcr.
+    + rewrite Er. exact Htb.
     + reflexivity.
     + eexists; exact Ht0.
     + congruence.
@@ -429,9 +439,9 @@ Proof.
     + intros t np T' mk ct tt S0 C0 M0 w3 Hw3. cbn [stkf app].
       eapply rs_mark_back; try exact tc_nonneg; try eassumption. right. reflexivity.
   - (* Setmark ; body ; Branchmark  (m = 1) *)
-    change (zlen [Setmark]) with 1 in Hc.
+    change (zlen [Setmark]) with 1 in Hc, Htb.
     pose proof (emit_length cfg0 r (a + 1 + 0) tbl) as Lr.
-    destruct (emit cfg0 r (a + 1 + 0) tbl) as [cr t1] eqn:Er. cbn [fst] in Lr, Hc. rewrite ?Lr in Hc.
+    destruct (emit cfg0 r (a + 1 + 0) tbl) as [cr t1] eqn:Er. cbn [fst snd] in Lr, Hc, Htb. rewrite ?Lr in Hc.
     cbn [app] in Hc.
     apply has_code_cons in Hc. destruct Hc as [H0 Hc].
     apply has_code_app in Hc. destruct Hc as [Hcr Hc]. rewrite Lr in Hc.
@@ -450,11 +460,12 @@ Proof.
     assert (Hiter : forall fi, iter_ok_at f r lazy INF false ltest (ltest + 2) fi).
     { destruct lazy.
       - eapply cc_iter_lbm with (lbody := lbody) (tbl := tbl); try eassumption; try reflexivity;
-          try (rewrite Er; exact Hcr); try exact Ht0.
+          try (rewrite Er; exact Hcr); try (rewrite Er; exact Htb); try exact Ht0.
       - eapply cc_iter_bm with (lbody := lbody) (tbl := tbl); try eassumption; try reflexivity;
-          try (rewrite Er; exact Hcr); try exact Ht0. }
+          try (rewrite Er; exact Hcr); try (rewrite Er; exact Htb); try exact Ht0. }
     apply (cc_loop_core f r lazy INF false 1 a lbody ltest (ltest + 2) tbl Hr_ok Hsr); try assumption.
     + rewrite Er. exact Hcr.
+    + rewrite Er. exact Htb.
     + reflexivity.
     + eexists; exact Ht0.
     + congruence.
